@@ -33,6 +33,7 @@ type Cfg struct {
 	Invalid  map[int]map[string]bool
 	Prims    map[string]bool
 	Eager    bool // offer Byzantine constructions even where a correct node is expected to ignore them
+	RevOrder bool // the flush macro (and the timely schedule's old messages) deliver a node's pending messages in REVERSE canonical order
 	D        int  // number of single fine-grained deliveries allowed per execution (level L1); -1 = L2 (no flush)
 	Cap      int
 	Deadline time.Time
@@ -494,6 +495,11 @@ func (e *Engine) addressed(soup []Sent, node int, ls *LState) []int {
 		}
 		return msgKey(e.msg(r[a]).Raw) < msgKey(e.msg(r[b]).Raw)
 	})
+	if e.Cfg.RevOrder { // "latest kind first": COMMITs before PREPAREs before the proposal they belong to
+		for i, j := 0, len(r)-1; i < j; i, j = i+1, j-1 {
+			r[i], r[j] = r[j], r[i]
+		}
+	}
 	return r
 }
 
